@@ -95,23 +95,3 @@ Example C02_nonvacuous :
   = Ok (mkBec2 (file_view (b_bf3 ex_bec2)) (b_blocks ex_bec2) ex_key, 0).
 Proof. vm_compute. reflexivity. Qed.
 Print Assumptions C02_nonvacuous.
-
-(* ---- instantiated with the bundled cipher (pyaes model of C16): the only remaining
-   parameters are sha256, the random sources and the ECC plug-in (C17: ECDH commutes) ---- *)
-From Bec2 Require Import Model.Aes Proofs.AesProofs.
-
-Theorem C02_bundled_aes_roundtrip :
-  forall sha256 pub_of valid_pub ecdh keygen rand16,
-  (forall d, blen (pub_of d) = 64) -> (forall d, valid_pub (pub_of d) = true) ->
-  (forall d e, ecdh d (pub_of e) = ecdh e (pub_of d)) ->
-  forall f bs key encs decs nk t nk' check nr,
-    blen key = 16 -> wf_file f -> bs <> [] ->
-    NoDup (map fst bs) -> all_match pub_of bs encs decs ->
-    bec2_write_file (adapter_encrypt aes_E) (adapter_mac aes_E) sha256 pub_of ecdh keygen (mkBec2 f bs key) encs nk = Ok (t, nk') ->
-    bec2_read_file (adapter_decrypt aes_D) (adapter_mac aes_E) sha256 valid_pub ecdh rand16 t decs check nr =
-      Ok (mkBec2 (file_view f) bs key, nr).
-Proof.
-  intros sha256 pub_of valid_pub ecdh keygen rand16 H1 H2 H3.
-  exact (C02_roundtrip aes_E aes_D aes_E_len aes_DE16 sha256 pub_of valid_pub ecdh keygen rand16 H1 H2 H3).
-Qed.
-Print Assumptions C02_bundled_aes_roundtrip.
